@@ -66,4 +66,8 @@ THEOREMS = [
     ("DastardV.Lemmas.AutoSpacing", "DastardV.C02.C02_auto_spacing"),
     ("DastardV.Lemmas.AutoSpacing", "DastardV.C02.C02_auto_spacing_all"),
     ("DastardV.Lemmas.AutoSpacing", "DastardV.C02.C02_auto_spacing_after_reconfigure"),
+    ("DastardV.Lemmas.AutoSpacingSource", "DastardV.C02.C02_auto_spacing_source_level"),
+    ("DastardV.Lemmas.AutoSpacingSource", "DastardV.C02.C02_auto_spacing_all_source_level"),
+    ("DastardV.Lemmas.AutoSpacingSource", "DastardV.Compose.abaco_auto_spacing"),
+    ("DastardV.Lemmas.AutoSpacingSource", "DastardV.Compose.lancero_auto_spacing"),
 ]
